@@ -19,7 +19,7 @@
 (***************************************************************************)
 EXTENDS Integers, TLC, Json
 
-CONSTANTS BufferedDone, ProducerCancellable, MaxM
+CONSTANTS BufferedDone, ProducerCancellable, ErrSendCancellable, MaxM
 
 VARIABLES sc,    \* scenario: [need, mi, rules, m, exit, exitAt, mf]
           ctx,   \* context expired
@@ -34,11 +34,12 @@ Scenarios ==
      mi : 1..3,            \* maxIterations
      rules : 1..2,         \* rules per iteration
      m : 0..MaxM,          \* matches the producer has for each rule application
-     exit : {"none", "invalid", "exprerr"},   \* early exit of the consumer
+     exit : {"none", "invalid", "exprerr", "invalid+err"},   \* early exit of the consumer ("invalid+err": the consumer bails
+                           \* out at item exitAt and the NEXT item the producer has is an expression-error item)
      exitAt : 1..MaxM,     \* at which received item
      mf : BOOLEAN]         \* the fact count reaches maxFacts
 
-Init == /\ sc \in {s \in Scenarios : s.exit # "none" => s.exitAt <= s.m}
+Init == /\ sc \in {s \in Scenarios : (s.exit # "none" => s.exitAt <= s.m) /\ (s.exit = "invalid+err" => s.exitAt < s.m)}
         /\ ctx = FALSE /\ cpc = "wait" /\ cres = "none"
         /\ rpc = "iterTop" /\ it = 1 /\ ru = 1 /\ got = 0 /\ rres = "none"
         /\ ppc = "idle" /\ sent = 0 /\ stop = FALSE /\ doneBuf = "empty"
@@ -71,7 +72,7 @@ RuleTop == /\ rpc = "ruleTop"
 RecvItem == /\ rpc = "recv" /\ ppc = "send"
             /\ got' = got + 1
             /\ LET isErr == sc.exit = "exprerr" /\ got + 1 = sc.exitAt
-                   bail  == sc.exit = "invalid" /\ got + 1 = sc.exitAt
+                   bail  == sc.exit \in {"invalid", "invalid+err"} /\ got + 1 = sc.exitAt
                IN IF isErr THEN ppc' = "closed" /\ rres' = "err" /\ rpc' = "sendDone" /\ stop' = TRUE   \* producer returns after an error item
                   ELSE IF bail THEN ppc' = "run" /\ rres' = "err" /\ rpc' = "sendDone" /\ stop' = TRUE  \* consumer returns, producer keeps going
                   ELSE ppc' = "run" /\ UNCHANGED <<rres, rpc, stop>>
@@ -99,7 +100,9 @@ SendDone == /\ rpc = "sendDone"
 Produce == /\ ppc = "run"
            /\ IF sent < sc.m THEN ppc' = "send" ELSE ppc' = "closed"
            /\ UNCHANGED <<sc, ctx, cpc, cres, rpc, it, ru, got, rres, sent, stop, doneBuf>>
-Cancelled == /\ ppc = "send" /\ ProducerCancellable /\ stop
+\* the item being offered is an expression-error item (sent from a different statement of combine)
+ErrItem == sc.exit = "invalid+err" /\ sent = sc.exitAt
+Cancelled == /\ ppc = "send" /\ stop /\ (IF ErrItem THEN ErrSendCancellable ELSE ProducerCancellable)
              /\ ppc' = "closed"
              /\ UNCHANGED <<sc, ctx, cpc, cres, rpc, it, ru, got, rres, sent, stop, doneBuf>>
 
